@@ -114,6 +114,10 @@ func genBatch(r *rand.Rand, mode string) (BatchCfg, *BatchScript) {
 		c.Via = "builder"
 		c.WarmN = 1 + r.Intn(4) // ... and with another retry budget
 		pFail = 0
+	case "rerunstop": // the node object was used before with four workers; now one worker, stop on error, a slow failing first item
+		c.C, c.WarmC, c.Items = 1, 4, 6+r.Intn(4)
+		c.N, c.W, c.Fb, c.StopMode, c.Sched, c.Via, c.Shape = 1, 4, false, true, "hold", "builder", "results"
+		pFail = 0
 	case "rebudget": // the node object was used before with another retry budget
 		c.C = r.Intn(3)
 		c.Items = 2 + r.Intn(6)
@@ -237,7 +241,7 @@ func genBatch(r *rand.Rand, mode string) (BatchCfg, *BatchScript) {
 		}
 		s.Items[i] = is
 	}
-	if mode == "bigstop" {
+	if mode == "bigstop" || mode == "rerunstop" {
 		s.Items[1].Execs[0].Out = "err"
 	}
 	if mode == "bigcancel" {
@@ -395,6 +399,12 @@ func init() {
 			}
 			r := rand.New(rand.NewSource(seed*7919 + int64(mi)))
 			n := count
+			if mode == "rerunstop" {
+				n = 6
+				if count > 500 {
+					n = 40
+				}
+			}
 			if mode == "longbatch" || mode == "bigcancel" {
 				n = 4
 				if count > 500 {
